@@ -20,7 +20,7 @@ pub struct Edit {
 #[derive(Clone, Debug, Serialize, Deserialize, PartialEq)]
 pub struct Step {
     pub edits: Vec<Edit>,
-    /// 0 exact, 1 coarsened, 2 extra marks, 3 `true`, 4 coarsened + extra
+    /// 0 exact, 1 coarsened, 2 extra marks, 3 `true`, 4 coarsened + extra, 5 splice-shaped (single array edit; else exact)
     pub tree_style: u8,
     pub coarsen: Vec<(u32, u32)>,
     pub extra: Vec<Vec<u8>>,
@@ -35,7 +35,7 @@ pub fn edit() -> BoxedStrategy<Edit> {
 pub fn step() -> BoxedStrategy<Step> {
     (
         proptest::collection::vec(edit(), 1..4),
-        prop_oneof![4 => Just(0u8), 3 => Just(1u8), 2 => Just(2u8), 1 => Just(3u8), 1 => Just(4u8)],
+        prop_oneof![4 => Just(0u8), 3 => Just(1u8), 2 => Just(2u8), 1 => Just(3u8), 1 => Just(4u8), 3 => Just(5u8)],
         proptest::collection::vec((any::<u32>(), any::<u32>()), 0..3),
         proptest::collection::vec(proptest::collection::vec(0u8..12, 1..4), 0..3),
     )
@@ -280,6 +280,10 @@ pub fn diff(a: &JsVal, b: &JsVal, cur: &mut Path, out: &mut Vec<Path>) {
 pub enum Tree {
     True,
     Node(BTreeMap<String, Tree>),
+    /// the shape `tmpl/index.ts` builds for an array splice: an object whose prototype is an array aligned with the
+    /// NEW list (length `start`, then `splice(start, del, ...true x ins)`); `marks` / `length`: further indexes and the
+    /// `length` key marked so that the tree covers the diff for direct readers too
+    Splice { start: usize, del: usize, ins: usize, marks: Vec<usize>, length: bool },
 }
 
 impl Tree {
@@ -292,13 +296,13 @@ impl Tree {
             return;
         }
         match self {
-            Tree::True => {}
+            Tree::True | Tree::Splice { .. } => {}
             Tree::Node(m) => m.entry(path[0].clone()).or_insert_with(Tree::empty).mark(&path[1..]),
         }
     }
     pub fn covers(&self, path: &[String]) -> bool {
         match self {
-            Tree::True => true,
+            Tree::True | Tree::Splice { .. } => true,
             Tree::Node(m) => {
                 if path.is_empty() {
                     return false;
@@ -310,6 +314,7 @@ impl Tree {
     pub fn to_json(&self) -> Value {
         match self {
             Tree::True => json!("T"),
+            Tree::Splice { start, del, ins, marks, length } => json!({"$splice": [start, del, ins], "$marks": marks, "$length": length}),
             Tree::Node(m) => {
                 let mut o = Map::new();
                 for (k, v) in m {
@@ -325,6 +330,51 @@ impl Tree {
             }
         }
     }
+}
+
+fn get<'a>(v: &'a JsVal, path: &[String]) -> Option<&'a JsVal> {
+    if path.is_empty() {
+        return Some(v);
+    }
+    match v {
+        JsVal::Obj(items) => items.iter().find(|(k, _)| *k == path[0]).and_then(|(_, x)| get(x, &path[1..])),
+        JsVal::Arr(items) => path[0].parse::<usize>().ok().and_then(|i| items.get(i)).and_then(|x| get(x, &path[1..])),
+        _ => None,
+    }
+}
+
+fn set_at(t: &mut Tree, path: &[String], leaf: Tree) {
+    if path.is_empty() {
+        *t = leaf;
+        return;
+    }
+    if let Tree::Node(m) = t {
+        set_at(m.entry(path[0].clone()).or_insert_with(Tree::empty), &path[1..], leaf);
+    }
+}
+
+/// If the whole difference is one contiguous change inside ONE array whose length changed (insert / remove / push /
+/// pop), returns (path of the array, start, deleted, inserted).
+fn splice_of(prev: &JsVal, next: &JsVal, dp: &[Path]) -> Option<(Path, usize, usize, usize)> {
+    // the array is the parent of the `length` mark
+    let lens: Vec<&Path> = dp.iter().filter(|p| p.last().map(|s| s == "length").unwrap_or(false)).collect();
+    if lens.len() != 1 {
+        return None;
+    }
+    let arr_path: Path = lens[0][..lens[0].len() - 1].to_vec();
+    if arr_path.is_empty() || !dp.iter().all(|p| p.len() > arr_path.len() && p[..arr_path.len()] == arr_path[..]) {
+        return None;
+    }
+    let (Some(JsVal::Arr(a)), Some(JsVal::Arr(b))) = (get(prev, &arr_path), get(next, &arr_path)) else { return None };
+    let mut pre = 0;
+    while pre < a.len() && pre < b.len() && a[pre] == b[pre] {
+        pre += 1;
+    }
+    let mut suf = 0;
+    while suf < a.len() - pre && suf < b.len() - pre && a[a.len() - 1 - suf] == b[b.len() - 1 - suf] {
+        suf += 1;
+    }
+    Some((arr_path, pre, a.len() - pre - suf, b.len() - pre - suf))
 }
 
 const EXTRA_NAMES: &[&str] = &["a", "b", "c", "list", "item", "index", "obj", "0", "1", "length", "x", "id"];
@@ -348,7 +398,27 @@ pub fn apply_step(prev: &JsVal, s: &Step) -> Applied {
     for p in &dp {
         tree.mark(p);
     }
-    let style = s.tree_style;
+    let mut style = s.tree_style;
+    if style == 5 {
+        // the production shape of `spliceArrayDataOnPath`: one contiguous change of one array, everything else equal
+        let sp = splice_of(prev, &d, &dp);
+        match sp {
+            Some((path, start, del, ins)) => {
+                // index.ts marks only the inserted items; a reader of `list[i]` / `list.length` needs the shifted items
+                // and the length marked as well for the tree to cover the diff (the property's precondition)
+                let (old, new) = match (get(prev, &path), get(&d, &path)) {
+                    (Some(JsVal::Arr(a)), Some(JsVal::Arr(b))) => (a.clone(), b.clone()),
+                    _ => (vec![], vec![]),
+                };
+                let marks: Vec<usize> = (start..new.len().max(old.len())).filter(|i| old.get(*i) != new.get(*i)).collect();
+                let mut t = Tree::empty();
+                set_at(&mut t, &path, Tree::Splice { start, del, ins, marks, length: old.len() != new.len() });
+                labels.push("tree:splice".into());
+                return Applied { data: d, tree: t, labels, diff: dp };
+            }
+            None => style = 0,
+        }
+    }
     labels.push(format!("tree:{}", ["exact", "coarsened", "extra", "true", "coarsened+extra"][style.min(4) as usize]));
     if style == 1 || style == 4 {
         for (a, b) in &s.coarsen {
